@@ -81,7 +81,8 @@ pub fn expand_self<T: VisitableMut + Clone>(input: &T, to: &Type) -> T {
     input
 }
 
-/// Returns `ty` in a form that can follow `&`: `A + B` (with or without `dyn` / `impl`) must be parenthesized.
+/// Returns `ty` in a form that can follow `&` or start a where-predicate: `A + B` (with or without `dyn` / `impl`)
+/// and `for<'a> fn(..)` must be parenthesized.
 pub fn ref_target(ty: &Type) -> Type {
     let mut inner = ty;
     while let Type::Group(g) = inner {
@@ -89,6 +90,8 @@ pub fn ref_target(ty: &Type) -> Type {
     }
     match inner {
         Type::TraitObject(_) | Type::ImplTrait(_) => parse_quote!((#inner)),
+        // `for<'a> fn(&'a T) -> &'a T : Trait` would be read as a higher-ranked predicate on `fn(..)`
+        Type::BareFn(f) if f.lifetimes.is_some() => parse_quote!((#inner)),
         _ => ty.clone(),
     }
 }
